@@ -16,6 +16,15 @@ func (vc *FuncVC) execBlock(b *ssa.BasicBlock) {
 		case *ssa.Phi:
 			// handled on block entry
 		case *ssa.DebugRef:
+			if la := vc.fc.LocalAssume; la != nil && !ins.IsAddr && ins.Object() != nil {
+				if cl := la[ins.Object().Name()]; cl != nil && !vc.localDone[ins.Object().Name()] {
+					if v, ok := vc.vals[ins.X]; ok && v.Kind == vScalar {
+						vc.localDone[ins.Object().Name()] = true
+						env := vc.env(st, map[string]SVal{ins.Object().Name(): vc.toSVal(v, ins.X.Type())})
+						vc.assume(Implies(reach, env.boolean(cl.E)))
+					}
+				}
+			}
 		case *ssa.Alloc:
 			vc.execAlloc(st, ins)
 		case *ssa.FieldAddr:
@@ -493,6 +502,9 @@ func (vc *FuncVC) execBinOp(st *State, reach Term, ins *ssa.BinOp) {
 		if !(isLit(y) && y.S != "0") {
 			vc.oblige("S", fmt.Sprintf("divzero#%d", vc.ord("divzero")), reach, Ne(y, IntLit(0)), vc.propTags("C04"), ins.Pos(), "division by zero")
 			vc.assume(Implies(reach, Ne(y, IntLit(0))))
+		}
+		if !isLitTerm(y) {
+			x, y = vc.define("dvd", x), vc.define("dvs", y)
 		}
 		if ins.Op == token.QUO {
 			raw = TDiv(x, y)
